@@ -77,6 +77,19 @@ func init() {
 		Assumptions: []string{"the race detector only sees races on paths the workload reaches and only with the synchronisation it intercepts (all of it is Go-native here)"},
 		Cases:       func(t string) int { return tierN(t, 96, 1600) },
 		RunCase: func(c *CaseCtx) *CaseResult {
+			if c.Idx%6 == 2 {
+				// directed overlap: a forced Shutdown walks over the jobs while saves keep removing finished ones (3 rounds)
+				var last *CaseResult
+				for round := 0; round < 3; round++ {
+					r := simpleCase(c, drv.RunShutdownVsRemovingSaves(c.Seed+int64(round)), 0)
+					if last != nil {
+						r.Evaluations += last.Evaluations
+						r.Events += last.Events
+					}
+					last = r
+				}
+				return last
+			}
 			return stressCase(c, raceOpts(c.Idx), "C13")
 		},
 		Post: func(tier string, counters map[string]int) []string {
